@@ -4,6 +4,7 @@
   one fact fails this module only — the property theorems stay discharged and the evidence names the fact.
 -/
 import JRV.Model.EndToEnd
+import JRV.Model.RegistryProg
 import JRV.Generated
 
 namespace JRV.Props
@@ -57,5 +58,22 @@ theorem C01_gen_multicallGetattrAppends : Generated.multicallGetattrAppends = so
 /-- `_Method.__call__` / `MultiCallMethod.__call__` take the receiver positionally: no keyword name is special
     (`methodParams` / `jobParams` do not look at the keys). -/
 theorem C01_gen_callReceiverPositional : Generated.callReceiverPositional = some (true, true) := by decide
+
+/-- The functions that serve a request store nothing into the registry (`self.funcs`, `self.instance`, what hangs below
+    them) nor into an attribute of the dispatcher: `RegProg.stepEv` leaves the state unchanged on a request
+    (`C01_registry_requests_leave_state`, `C01_registry_fresh_dispatcher`). -/
+theorem C01_gen_requestWrites : Generated.requestWrites = some RegProg.requestWrites := by decide
+
+/-- The same from the write footprint of the whole serve path (tools/extractors/footprint.py, the fact C13 reads): no
+    store to shared state by any function reachable from `_marshaled_dispatch` / `do_POST` / `handle_jsonrpc`. -/
+theorem C01_gen_servePathSharedWrites :
+    (Generated.servePathSharedWrites.map fun l => l.map fun x => x.2.2) = some RegProg.requestWrites := by decide
+
+/-- `MultiCall._request` hands the server's reply list to the iterator untouched (`wrapResponses`, `C01_batch`,
+    `C01_batch_position`: position `i` is reply `i` for a batch of any size). -/
+theorem C01_gen_multicallResponsesUntouched : Generated.multicallResponsesUntouched = some responsesUntouched := by decide
+
+/-- … and the jobs draw their ids as single requests do (`jobRequest`: `rpcid` absent). -/
+theorem C01_gen_multicallJobIds : Generated.multicallJobIds = some jobIds := by decide
 
 end JRV.Props
